@@ -8,8 +8,38 @@ open Pepper.Driver
 def errName : Finish.Err → String
   | .missing => "missing" | .length => "length" | .letter => "letter" | .complement => "complement" | .structure => "structure"
 
+def baseJ (b : Comp.BaseRef) : Json := Json.arr #[Json.str b.name, Json.bool b.rev, Json.num b.len]
+def itemJ (i : Comp.ItemRef) : Json := Json.arr #[Json.str i.name, Json.bool i.rev]
+def strsJ (l : List String) : Json := Json.arr (l.map Json.str).toArray
+
+def compSnap (s : Comp.St) : Json :=
+  Json.mkObj [
+    ("pfx", Json.str s.pfx),
+    ("seqs", Json.arr (s.seqs.map (fun e => Json.mkObj [("name", Json.str e.name), ("sup", Json.bool e.isSup), ("len", Json.num e.len),
+        ("const", Json.str (String.ofList e.const)), ("items", Json.arr (e.items.map itemJ).toArray),
+        ("bases", Json.arr (e.bases.map baseJ).toArray)])).toArray),
+    ("strands", Json.arr (s.strands.map (fun e => Json.mkObj [("name", Json.str e.name), ("dummy", Json.bool e.dummy), ("len", Json.num e.len),
+        ("items", Json.arr (e.items.map itemJ).toArray), ("bases", Json.arr (e.bases.map baseJ).toArray)])).toArray),
+    ("structs", Json.arr (s.structs.map (fun e => Json.mkObj [("name", Json.str e.name), ("strands", strsJ e.strands),
+        ("struct", Json.str (String.ofList e.struct)), ("opt", Json.str (String.ofList e.opt.fmtF)),
+        ("bases", Json.arr (e.bases.map baseJ).toArray)])).toArray),
+    ("kinetics", Json.arr (s.kins.map (fun k => Json.mkObj [("name", Json.str k.name), ("ins", strsJ k.ins), ("outs", strsJ k.outs)])).toArray)]
+
+partial def instSnap : Sys.Inst → Json
+  | .comp s => Json.mkObj [("kind", "comp"), ("comp", compSnap s)]
+  | .sys st => Json.mkObj [("kind", "sys"), ("pfx", Json.str st.pfx),
+      ("signals", Json.arr (st.signals.map (fun (n, es) => Json.arr #[Json.str n, Json.arr (es.map (fun e =>
+          Json.arr #[(match e.port with | .seq i _ => Json.str i.name | .sig x => Json.str ("@" ++ x)), Json.str e.comp, Json.bool e.wc])).toArray])).toArray),
+      ("lengths", Json.arr (st.lengths.map (fun (n, l) => Json.arr #[Json.str n, Json.num l])).toArray),
+      ("components", Json.arr (st.components.map (fun (n, i) => Json.arr #[Json.str n, instSnap i])).toArray)]
+
 def handle? (op : String) (j : Json) : Option Json :=
   match op with
+  | "snapshot" =>
+    let b := Compile.bundleOf j
+    some (match Sys.loadFile b 32 (str j "entry") (nat j "nargs") "@" "" "." (strList (j.getObjValD "includes")) (nat j "anon") with
+    | .error _ => reject "reject"
+    | .ok (inst, _) => Json.mkObj [("ok", instSnap inst)])
   | "mfe-read" =>
     some (match Finish.readDesign Generated.alphaMfeSeq (str j "text").toList with
       | some d => Json.mkObj [("ok", Json.arr (d.map (fun (n, s) => Json.arr #[Json.str (String.ofList n), Json.str (String.ofList s)])).toArray)]
